@@ -1,4 +1,5 @@
 import GoLevel.Model.MemDB
+import GoLevel.Model.MemArr
 import GoLevel.Driver.Key
 /-! Line-protocol handler for the in-memory table (C14).  Stateful: `mem new` installs a table, the
 following lines act on it.
@@ -16,6 +17,16 @@ mem iter <id> new <start|nil> <limit|nil>      ⇒ ok
 mem iter <id> first|last|next|prev|seek <key>  ⇒ true <key> <val> | false
 mem iter <id> rel                              ⇒ ok
 ```
+
+`mem arr <the same commands>` address the array-level model `GoLevel.MemArr` (`Model/MemArr.lean`, the transcription
+of `memdb.go` over `kvData`/`nodeData`) instead of the ideal skip list; same answers, `panic` when the model
+indexes out of range.  Array-only commands (what the ideal model cannot answer):
+
+```
+mem arr state             ⇒ n=<n> size=<kvSize> mh=<maxHeight> kv=<len(kvData)>:<fnv> nodes=<len(nodeData)>:<fnv> prev=<fnv>
+mem arr iter <id> node    ⇒ <node index of the iterator>
+```
+(`fnv` = FNV-1a/64 over the elements, each taken mod 2^64, 16 hex digits)
 -/
 namespace GoLevel.Driver
 open GoLevel GoLevel.MemDB
@@ -24,6 +35,9 @@ structure MemState where
   cmp : Cmp := bytesCompare
   db : DB := {}
   its : List (Nat × Iter) := []
+  acmp : Cmp := bytesCompare
+  arr : MemArr.DB := MemArr.DB.new
+  aits : List (Nat × MemArr.Iter) := []
 
 def memCmpById (s : String) : Option Cmp :=
   if s.startsWith "i:" then (cmpById (s.drop 2).toString).map fun c => icmpBytes c
@@ -44,10 +58,77 @@ def memCall : List String → Option (Call Bytes)
   | ["seek", k] => (fromHex k).map .seek
   | _ => none
 
-def handleMem (st : MemState) : List String → Option (MemState × String)
+def fnvStep (h : UInt64) (x : Nat) : UInt64 := (h ^^^ UInt64.ofNat x) * 1099511628211
+
+def fnvNats (xs : Array Nat) : UInt64 := xs.foldl fnvStep 14695981039346656037
+
+def hex16 (x : UInt64) : String :=
+  let s := String.ofList (Nat.toDigits 16 x.toNat)
+  String.ofList (List.replicate (16 - s.length) '0') ++ s
+
+def memArrState (p : MemArr.DB) : String :=
+  s!"n={p.n} size={p.kvSize} mh={p.maxHeight} kv={p.kvData.size}:{hex16 (fnvNats (p.kvData.map (·.toNat)))} " ++
+  s!"nodes={p.nodeData.size}:{hex16 (fnvNats p.nodeData)} prev={hex16 (fnvNats p.prevNode.toArray)}"
+
+/-- the `mem arr …` commands: the array-level model -/
+def handleMemArr (st : MemState) : List String → Option (MemState × String)
   | ["new", c] => do
       let cmp ← memCmpById c
-      pure ({ cmp := cmp }, "ok")
+      pure ({ st with acmp := cmp, arr := MemArr.DB.new, aits := [] }, "ok")
+  | ["put", k, v, h] => do
+      let k ← fromHex k; let v ← fromHex v; let h ← h.toNat?
+      match MemArr.put st.acmp st.arr k v h with
+      | some p => pure ({ st with arr := p }, "ok")
+      | none => pure (st, "panic")
+  | ["del", k] => do
+      let k ← fromHex k
+      match MemArr.delete st.acmp st.arr k with
+      | some r => pure ({ st with arr := r.1 }, if r.2 then "ok" else "notfound")
+      | none => pure (st, "panic")
+  | ["get", k] => do
+      let k ← fromHex k
+      pure (st, match MemArr.get st.acmp st.arr k with
+        | some (some v) => toHexField v | some none => "notfound" | none => "panic")
+  | ["find", k] => do
+      let k ← fromHex k
+      pure (st, match MemArr.find st.acmp st.arr k with
+        | some (some (k', v)) => s!"{toHexField k'} {toHexField v}" | some none => "notfound" | none => "panic")
+  | ["has", k] => do
+      let k ← fromHex k
+      pure (st, match MemArr.contains st.acmp st.arr k with | some b => toString b | none => "panic")
+  | ["len"] => pure (st, toString st.arr.n)
+  | ["size"] => pure (st, toString st.arr.kvSize)
+  | ["used"] => pure (st, toString st.arr.kvData.size)
+  | ["state"] => pure (st, memArrState st.arr)
+  | ["reset"] =>
+      match MemArr.reset st.arr with
+      | some p => pure ({ st with arr := p }, "ok")
+      | none => pure (st, "panic")
+  | "iter" :: id :: rest => do
+      let id ← id.toNat?
+      match rest with
+      | ["new", s, l] => do
+          let s ← memOptHex s; let l ← memOptHex l
+          pure ({ st with aits := (id, { start := s, limit := l }) :: st.aits.filter (·.1 != id) }, "ok")
+      | ["rel"] => pure ({ st with aits := st.aits.filter (·.1 != id) }, "ok")
+      | ["node"] => do
+          let it ← st.aits.lookup id
+          pure (st, toString it.node)
+      | mv => do
+          let it ← st.aits.lookup id
+          let cl ← memCall mv
+          match MemArr.Iter.step st.acmp st.arr cl it with
+          | some (it', ok) =>
+              pure ({ st with aits := (id, it') :: st.aits.filter (·.1 != id) },
+                if ok then memShowOut it'.out else "false")
+          | none => pure (st, "panic")
+  | _ => none
+
+def handleMem (st : MemState) : List String → Option (MemState × String)
+  | "arr" :: rest => handleMemArr st rest
+  | ["new", c] => do
+      let cmp ← memCmpById c
+      pure ({ st with cmp := cmp, db := {}, its := [] }, "ok")
   | ["put", k, v, h] => do
       let k ← fromHex k; let v ← fromHex v; let h ← h.toNat?
       pure ({ st with db := put st.cmp st.db k v h }, "ok")
